@@ -65,7 +65,7 @@ def strategy():
 
 
 def evaluate(env, c):
-    d = env.driver("ts-asan")
+    d = env.driver(c.get("variant", "ts-asan"))
     out = d.out
     L = ",".join(c["list"]).encode()
     members = {int(t) for t in c["list"]}
@@ -188,7 +188,7 @@ def main():
     ctx.assumptions = ["the harness runs as root and keeps saved uid 0 so that one process can assume several real uids in a row",
                        "only well-formed decimal lists are generated (malformed lists belong to C02)"]
     nw, per = (4, 400) if ctx.quick else (16, 5000)
-    pbt.run(ctx, {"ts-asan": b}, strategy, evaluate, classify, nw, per)
+    pbt.run(ctx, {"ts-asan": b, "nts-asan": ctx.run.build("nts-asan")}, strategy, evaluate, classify, nw, per, variants=["ts-asan", "ts-asan", "nts-asan"])
     if not ctx.replay:
         long_list_phase(ctx, b)
     ctx.finish()
